@@ -47,6 +47,26 @@ def one(ctx, stream, rng, version, device_id, port, dtype, upper, src_ip, report
     return probes
 
 
+def several_units(ctx, rng, versions):
+    """several units answering ONE scan, every free byte of their replies zero (unset clocks): each is reported with its
+    own identity"""
+    units = []
+    for i, v in enumerate(versions):
+        sn = ascii_bytes(rng, 32)
+        name = b"net_ac_" + ascii_bytes(rng, 4)
+        did, port, ip = rng.randrange(2 ** 48), rng.choice([6444, 1234]), f"10.55.0.{i + 1}"
+        units.append((v, did, port, sn, name, ip,
+                      discsim.spec_reply(ctx, rng, v, did, ip, port, sn, name, zero_fill=True)))
+    out = discsim.run_discover([(0.1 + 0.01 * i, u[5], 6445, u[6]) for i, u in enumerate(units)])
+    inp = {"versions": list(versions), "ids": [u[1] for u in units]}
+    got = sorted((d.ip, discsim.canon_device(d)) for d in (out.get("result") or []))
+    want = sorted((u[5], f"port={u[2]} id={u[1]} sn={hx(u[3])} name={hx(u[4])} type={0xAC} version={u[0]}") for u in units)
+    if "exc" in out or got != want:
+        ctx.violate("several_units", inp, {"exc": str(out.get("exc"))[:60], "reported": got}, want,
+                    "units answering the same scan are not each reported with exactly their advertised identity")
+    ctx.case("several_units", key=str(inp), sample=inp)
+
+
 def probe_check(ctx):
     """the probe constant is a correctly signed V2 packet (spec decoder), as regenerated this run"""
     r = ctx.driver.ask(f"spec_v2_decode data={hx(DISCOVERY_MSG)}")
@@ -85,6 +105,8 @@ def run(ctx):
         for src in ("10.9.8.7", "10.9.8.8"):
             for _scan in range(3):
                 one(ctx, "rescan", rng, version, rng.randrange(2 ** 48), 6444, 0xAC, False, src, src, single=(_scan == 2))
+    for versions in ((3, 3), (2, 2), (3, 2, 3), (3, 3, 3, 3)):
+        several_units(ctx, rng, versions)
     # with the DEFAULT auto-connect (V2 units need no cloud): a unit of any appliance type is still reported with its
     # identity - whether or not it can be refreshed (nothing listens on its TCP port here; generic devices cannot refresh)
     for dtype in [0xAC, 0xA1, 0xDB, 0xE1, 0x00, 0xFF] + ([rng.randrange(256) for _ in range(4)] if not thorough else list(range(0, 256, 7))):
